@@ -536,7 +536,9 @@ class History(object):
         stale_prev = {}
         for a in changes:
             if (pkey, ckey, a) in self.emptied:
-                stale_prev[a] = self.emptied.pop((pkey, ckey, a))
+                stale_prev[a] = self.emptied[(pkey, ckey, a)]
+                if not (norm(changes[a]) is None and a in inplace):
+                    del self.emptied[(pkey, ckey, a)]      # an explicit assignment or a non-null value resets previous_value
             if a in inplace and norm(changes[a]) is None and before.get(a) is not None:
                 self.emptied[(pkey, ckey, a)] = before[a]
         self.step_mods[(pkey, ckey)] = {"changes": changes, "before": before, "null_static": null_static, "stale_previous": stale_prev}
@@ -848,7 +850,7 @@ def run(ctx):
     ctx.assume("whether Cassandra accepts clustering restrictions on statements that touch only static columns differs by release: accepted")
     rng = ctx.rng
     n_hist = ctx.scale(1500, 100000)
-    budget = 35 if ctx.quick else 330
+    budget = 35 if ctx.quick else 270
 
     def adapt(v):
         tn = type(v).__name__
